@@ -1414,6 +1414,8 @@ class Evaluator:
         if attr == "transpose" and args:
             axes = args[0] if len(args) == 1 and isinstance(args[0], (list, tuple)) else args
             return self.np_transpose_axes(base, [const_int(a_) for a_ in axes], node)
+        if attr in ("all", "any") and isinstance(base, (list, bool)) and not args:
+            return self.np_call(attr, [base], kwargs, node)
         if attr == "clip" and isinstance(base, Arr) and len(args) == 2:
             return self.np_call("clip", [base] + list(args), kwargs, node)
         if attr in ("max", "min", "trace") and not isinstance(base, (dict, str)):
